@@ -11,6 +11,8 @@ import (
 	"fmt"
 	"math/rand"
 	"os"
+
+	banktypes "github.com/cosmos/cosmos-sdk/x/bank/types"
 	"regexp"
 	"sort"
 	"strconv"
@@ -121,6 +123,13 @@ func newPkH(t *testing.T, p pkParams) *pkH {
 	rp := app.RollappKeeper.GetParams(f.Ctx)
 	rp.MinSequencerBondGlobal = sdk.NewCoin("adym", math.NewInt(1))
 	app.RollappKeeper.SetParams(f.Ctx, rp)
+	// chain configuration the test genesis lacks: bank metadata of the native denom (every real hub genesis has it).
+	// With it the denommetadata middleware attaches the metadata memo to the first transfers of adym to a rollapp
+	// (SendPacket re-marshals the packet data), which the commitment restored by a fork has to reproduce.
+	if _, ok := app.BankKeeper.GetDenomMetaData(f.Ctx, "adym"); !ok && os.Getenv("PK_NO_ADYM_METADATA") == "" {
+		app.BankKeeper.SetDenomMetaData(f.Ctx, banktypes.Metadata{Base: "adym", Display: "dym", Name: "dym", Symbol: "DYM",
+			DenomUnits: []*banktypes.DenomUnit{{Denom: "adym", Exponent: 0}, {Denom: "dym", Exponent: 18}}})
+	}
 	// rollapps
 	owner := Actor(99)
 	var clients []string
